@@ -9,6 +9,7 @@ import os, itertools, string, ast, warnings
 import vf
 from translate import pyfun
 from props import c17_translate as c17t
+from props import c17_oracle as orc
 
 FUNCS = ['padstring', 'int_to_chars', 'uniqstring', 'fix_blockname', 'unfix_blockname', 'valid_blockname', 'new_dict_key']
 METHODS = ['column_name', 'layer_name', 'node_col_name_from_number', 'column_name_from_number',
@@ -274,6 +275,21 @@ def oracle(ctx):
                 ok, what = check_new_names(mg, inp)
                 if not ok: ctx.failure('new-names', 'new_dict_key:' + what, inp, what, 'an unused name of the convention\'s length, or NamingConventionError')
     ctx.oracle_cases('new-names', nk)
+    # (6) geometries the library constructs with every `case` option / mixed-case or repeating character sets, and by EDITING
+    #     (rename_layer, refine_layers, refine, rename_column, add_layers; shipped geometry files): after every step all names
+    #     distinct, of the convention's length, lists and by-name dictionaries agree, every block present, block names invertible
+    scs = orc.scenarios(rng, ctx.thorough)
+    kinds = {}
+    for sc in scs:
+        ctx.count(('scenario', str(sc)))
+        for op in sc['ops']: kinds[op[0]] = kinds.get(op[0], 0) + 1
+        kinds['base:' + ('file' if 'file' in sc['base'] else 'rectangular')] = kinds.get('base:' + ('file' if 'file' in sc['base'] else 'rectangular'), 0) + 1
+        f = orc.run_scenario(mg, sc, ctx.repo)
+        if f:
+            key, observed, required, step = f
+            if step == 0: key = ('mulgrid(file):' if 'file' in sc['base'] else 'rectangular:') + key
+            ctx.failure('constructed-and-edited-geometries', key, dict(sc, failed_step=step), observed, required)
+    ctx.oracle_cases('constructed-and-edited-geometries', len(scs), operations=kinds)
 
 
 def check_add_layers(mg, inp):
@@ -312,6 +328,8 @@ def run(ctx):
                 'oracle: fix/unfix laws on names over letters, digits and blanks, all generator integers 1..3000 (thorough 20000) per configuration, rectangular geometries x conventions x atmosphere types x justification x alphabets; '
                 'new_dict_key on dictionaries holding the first m generated names minus random holes (fuel |d|+2); the translated add_layers name slice (fuel 3) against the real layer list for '
                 '0..130 layers (+ 702/703, 1208..1210 where the surface name "atm"/"at" would be generated) x conventions x justify x 6 alphabets x spaces; the per-convention tables; '
+                'oracle scenarios: rectangular x 4 conventions x case None/l/u x justify x mixed-case / repeating alphabets; edit sequences (rename atmosphere layer to a name the regenerated sequence reaches, '
+                'refine_layers, refine, rename_column, add_layers) on 3x3x3 grids x conventions x atmosphere types x alphabets and on tests/mulgrid/g1..g7.dat, checked after every step; '
                 'distinct by the full argument tuple')
     ctx.trusted += ['Coq 8.16.1 kernel (coqc); no native_compute', 'translator tools/translate/pyfun.py (Python AST -> Gallina over PTBase.PyVal) and its loop extension tools/props/c17_translate.py (while -> fuel fixpoint, for -> structural fixpoint, add_layers cut down to its name-deciding statements), fail-closed, validated by the extracted-code correspondence on every run',
                     'PTBase.PyVal / PyStr: hand-written semantics of the Python string operations used', 'extraction: ExtrOcamlBasic + ExtrOcamlString, OCaml 4.13.1, ocaml/main.ml']
@@ -354,6 +372,7 @@ def replay(ctx, data):
             return False
         except mg.NamingConventionError: return False
         except Exception: return True
+    if 'scenario' in inp: return orc.run_scenario(mg, inp, ctx.repo) is not None
     if 'add_layers' in inp: return not check_add_layers(mg, inp)[0]
     if 'new_name' in inp: return not check_new_names(mg, inp)[0]
     if 'n' in inp and 'convention' in inp:
